@@ -341,7 +341,26 @@ def situations():
     return out
 
 
+def bankrupt_run_case(spec):
+    """a levered book that is wiped out (flat, nested, three levels): the run and its reports complete"""
+    from . import c16
+
+    try:
+        b, data = c16.build(spec)
+        b.run()
+    except Exception as e:
+        if rt.guard_id(e) in runcheck.SIZING_GUARDS:
+            return ("refused", [], 0)
+        return ("died", [{"rule": "run_completes", "expected": "a well-formed run completes (bankruptcy is an outcome, not an error)", "observed": rt.describe(e)}], 0)
+    viols = []
+    for name, err in reports(b):
+        viols.append({"rule": "report_completes", "expected": "%s completes" % name, "observed": err})
+    return ("ok", viols[:3], 1 if b.strategy.bankrupt else 0)
+
+
 def replay(case):
+    if case.get("kind") == "bankrupt_run":
+        return bankrupt_run_case(case["spec"])[1]
     if case.get("driver") == "run":
         return run_case(case["spec"])[1]
     return illformed_case(case["item"])[1]
@@ -387,6 +406,12 @@ def run(ctx):
             if outcome == "raised":
                 raised += 1
                 ctx.mark(("sit", kind, runcheck._key(item)))
+        bspecs = [{"tree": tree, "gate": gate, "lev": [-2.0, 3.0], "path": path, "integer": integer, "fee": fee, "scale": 1.0, "capital": 1024.0} for tree in ("flat", "nested", "nested2", "deep") for gate in ("once", "daily") for path in ([8, 8, 8, 8], [4, 8, 2, 8]) for integer, fee in ((True, None), (False, "propdec"))]
+        for spec, (status, viols, nb) in ctx.run(kind, MOD, "bankrupt_run_case", bspecs, chunksize=2):
+            ctx.add(states=1 if status == "ok" else 0, transitions=1, traces_validated_against_impl=1, evaluations=1)
+            ctx.nontrivial_count += nb
+            for v in viols:
+                ctx.violation(dict(v, build=kind, module=MOD, case={"kind": "bankrupt_run", "spec": spec}))
         ctx.extra.setdefault("illformed", []).append({"build": kind, "situations": len(sits), "raised": raised})
     ctx.sample({"run_spec": fam[7]})
     ctx.sample({"illformed_situation": sits[3]})
